@@ -177,7 +177,7 @@ func loadScenarios() ([]*scenario, error) {
 		return nil, fmt.Errorf("only %d runner scenarios found under %s", len(order), dir)
 	}
 	sort.Strings(order)
-	out := []*scenario{embeddedScenario(), recipientsScenario(), cacheKeysScenario()}
+	out := []*scenario{embeddedScenario(), recipientsScenario(), cacheKeysScenario(), locationsScenario()}
 	for _, n := range order {
 		out = append(out, byName[n])
 	}
@@ -1048,6 +1048,9 @@ func main() {
 			}
 			if f != "cache_keys" {
 				list = append(list, "cache_keys")
+			}
+			if f != "locations" {
+				list = append(list, "locations")
 			}
 			for len(list) < nRounds {
 				list = append(list, hx.Pick(rs, names))
